@@ -5,6 +5,8 @@ import gen_expr, unparse_common as U
 
 
 def cases(ck):
+    for name, e in gen_expr.equal_literals():
+        yield name, e
     for name, e in gen_expr.depth2():
         yield name, e
     n = 2000 if ck.tier == "quick" else 50000
